@@ -160,8 +160,13 @@ fn judge_frag(fc: &FCfg, order: (u64, u64), t: &mut Tally) {
                     issues.push(("init/trex/default_sample_description_index".into(), format!("{}", tx.default_desc_index)));
                 }
             }
-            for s in &segs {
+            for (si, s) in segs.iter().enumerate() {
                 let sg = parse_segment(s);
+                // the second segment holds a sample presented before it is decoded: a signed
+                // composition offset needs version 1 of the run box (ISO/IEC 14496-12 8.8.8)
+                if si == 1 && sg.trun_version != 1 {
+                    issues.push(("seg/trun/version".into(), format!("trun version {} although a composition offset is negative", sg.trun_version)));
+                }
                 issues.extend(sg.probs.of(&[Class::Spec]).into_iter().map(|p| (p.sig.clone(), p.detail.clone())));
                 if sg.track_id != m.tracks.first().map(|t| t.tkhd.track_id).unwrap_or(1) {
                     issues.push(("seg/tfhd/track-id".into(), format!("tfhd track {} not in the init segment", sg.track_id)));
